@@ -34,9 +34,10 @@ import (
 func init() {
 	RegisterSub("C07", "pure", RunC07Pure)
 	RegisterSub("C07", "files", RunC07Files)
+	RegisterSub("C07", "multi", RunC07Multi)
 }
 
-const c07Rule = "pure: hashed input or inserted hash list non-empty; files: the checked column chunk holds at least one non-null value and a filter"
+const c07Rule = "pure: hashed input or inserted hash list non-empty; files: the checked column chunk holds at least one non-null value and a filter; multi: the member row group holds at least one non-null value of the column and every member has a filter"
 
 // c07Batch pipelines driver requests with a callback per answer.
 type c07Batch struct {
@@ -154,7 +155,7 @@ func RunC07Pure(ctx *core.Ctx) {
 	ctx.SetRule(c07Rule)
 	if ctx.Replay != "" { // pure cases are a function of the seed: re-run the stream of the recorded seed
 		rf := c07ReadReplay(ctx)
-		if rf == nil || rf.Detail.Case != nil {
+		if rf == nil || rf.Detail.Case != nil || rf.Detail.MultiCase != nil {
 			return
 		}
 		ctx.Seed = rf.Seed
@@ -176,11 +177,13 @@ func RunC07Pure(ctx *core.Ctx) {
 					ctx.Fail("L1", "pure-panic", fmt.Sprintf("panic in bloom/xxhash primitives: %v", p), fmt.Sprintf("worker %d", wi))
 				}
 			}()
-			nHash := ctx.Scale(60000, 1200000) / workers
-			nFixed := ctx.Scale(30000, 600000) / workers
-			nMulti := ctx.Scale(40000, 800000) / workers
-			nFilter := ctx.Scale(50000, 1000000) / workers
-			nEnc := ctx.Scale(30000, 600000) / workers
+			// thorough = 8x quick (was 20x: the whole of C07 thorough cost ~96 CPU-minutes; budget is 10 min
+			// of wall time on 16 cores for both builds together)
+			nHash := ctx.Scale(60000, 480000) / workers
+			nFixed := ctx.Scale(30000, 240000) / workers
+			nMulti := ctx.Scale(40000, 320000) / workers
+			nFilter := ctx.Scale(50000, 400000) / workers
+			nEnc := ctx.Scale(30000, 240000) / workers
 			if wi == 0 { // every boundary length once, deterministically
 				for _, n := range c07Lens {
 					buf := make([]byte, n)
